@@ -164,6 +164,9 @@ func (p *Path) indexAddr(x value, idxv value) value {
 	switch x := x.(type) {
 	case *sliceV:
 		p.checkIndex(idx, x.len)
+		if p.eagerOffsets && x.abs == nil && !idx.isConst() {
+			idx = p.tt.Const(64, p.concretize(idx, "index"))
+		}
 		pos := p.tt.Bin(OpAdd, x.off, idx)
 		if x.abs != nil {
 			return &eptr{abs: x.abs, idx: pos}
@@ -313,6 +316,15 @@ func (p *Path) reslice(x *sliceV, l, h, m *Term) value {
 	}
 	if x.isNil() {
 		return &sliceV{off: p.i64(0), len: p.i64(0), cap: p.i64(0)}
+	}
+	if p.eagerOffsets && x.abs == nil {
+		// parser mode: fork over the feasible values of a symbolic bound instead of carrying ite-chains
+		if !l.isConst() {
+			l = p.tt.Const(64, p.concretize(l, "slice low bound"))
+		}
+		if !h.isConst() {
+			h = p.tt.Const(64, p.concretize(h, "slice high bound"))
+		}
 	}
 	return &sliceV{
 		back:   x.back,
